@@ -1387,7 +1387,7 @@ theorem deNBody_round (mk : String → NR) (env : Env) (tl : Nat) (renv : REnv) 
                     simp only [R.bind]
                     have hu2 : Unmetered (inp st (bss.flatten ++ r)) := inp_unmetered st _ hu
                     have hcost : (if ((decide (ek = .prim .text) && decide (ek = .prim .text)) || (bigOf ev ev).isSome) = true then
-                          (if es.length * 7 > usizeMax then R.err .other else addCost (inp st (bss.flatten ++ r)) (es.length * 7))
+                          (if es.length * 7 > usizeMax then R.err .limit else addCost (inp st (bss.flatten ++ r)) (es.length * 7))
                         else R.ok () (inp st (bss.flatten ++ r))) = R.ok () (inp st (bss.flatten ++ r)) := by
                       split
                       · rw [if_neg (by unfold usizeMax; omega)]
